@@ -1,6 +1,7 @@
 //! Harness binary for the properties anchored in the `flussab` core crate
 //! (reader, writer, text scanners, combinators).
 mod c10;
+mod c08_linereader;
 mod c13;
 mod c15;
 mod c16;
@@ -25,6 +26,7 @@ fn main() {
             "C02" | "C09" | "C14" if v["subject"] == "DeferredReader" => reader_mc::replay_file(&v),
             "C11" | "C14" if v["subject"] == "DeferredWriter" => writer_mc::replay_file(&v),
             "C13" => c13::replay(&v),
+            "C08" => c08_linereader::replay(&v),
             "C14" if v["subject"] == "digit scanners" => c13::replay(&v),
             "C14" if v["subject"] == "text scanners" => c16::replay(&v),
             "C15" => c15::replay(&v),
@@ -74,6 +76,10 @@ fn main() {
             c16::displaced_family(cli.tier, &mut report);
             report.notes.push(format!("text scanners, displaced cursor: {:.1}s", t.elapsed().as_secs_f64()));
             format!("READER: {} || WRITER: {} || TEXT SCANNERS: tabs_or_spaces / newline / next_newline / fixed on every short string with a displaced cursor (the first refill inside the scan realigns the buffer), all read schedules, against the reference offsets and exact look-ahead || DIGIT SCANNERS: every short string x offset x 1..=8 bytes buffered with stale digits right behind the buffered window (the buffer was realigned by the refill that delivered them) x rest at once / byte-wise x 4 scanners x 3 types; the result must be the reference result for the text alone (a raw load beyond the buffered data changes it)", reader_mc::RULE_C02, writer_mc::RULE)
+        }
+        "C08" => {
+            c08_linereader::run(cli.tier, &mut report);
+            c08_linereader::RULE.into()
         }
         "C13" => {
             c13::run(cli.tier, &mut report);
